@@ -11,7 +11,12 @@ use std::task::{Wake, Waker};
 pub type Cid = u32;
 
 pub const NW: usize = 3; // task wakers in the pool
+/// today's per-call child budget of one group; used for coverage labels only, never by an oracle
 pub const BUDGET: u64 = 61;
+/// C13 oracle B: child polls one call may make per (group visit x event). The property only says "bounded";
+/// the crate's budget (61 today) is an implementation choice, so the constant is deliberately far above it.
+/// What is being caught is work that grows with the children's self-waking, which is unbounded (hard cap).
+pub const WORK_UNIT: u64 = 1024;
 /// hard cap of child polls inside one call into the subject; an unbounded loop becomes a panic
 pub const HARD_CAP: u64 = 200_000;
 
